@@ -704,22 +704,23 @@ impl FdlActiveStation {
             current_address + 1
         };
 
-        if next_address >= next_station && next_station > self.p.address {
-            // We have reached the end of the GAP, enter waiting state.
-            GapState::Waiting { rotation_count: 0 }
-        } else if next_address == next_station && next_station == self.p.address {
-            // We have reached the end of the GAP, enter waiting state (NS==TS case).
-            GapState::Waiting { rotation_count: 0 }
-        } else if next_address >= next_station
-            && next_station < self.p.address
-            && next_address < self.p.address
-        {
-            // We have reached the end of the GAP, enter waiting state (wrap-around GAP case).
-            GapState::Waiting { rotation_count: 0 }
+        // The GAP is the cyclic open interval (TS, NS).
+        let ts = self.p.address;
+        let in_gap = if next_station > ts {
+            next_address > ts && next_address < next_station
+        } else if next_station < ts {
+            next_address > ts || next_address < next_station
         } else {
+            next_address != ts
+        };
+
+        if in_gap {
             GapState::DoPoll {
                 current_address: next_address,
             }
+        } else {
+            // We have reached the end of the GAP, enter waiting state.
+            GapState::Waiting { rotation_count: 0 }
         }
     }
 
